@@ -486,7 +486,13 @@ QL_OPT = ["sup: {L}", "inf: {L}", "bounds: {L}", "sup{{{0}}}: {L}", "inf{{{0}}}:
 # the statistical forms: bound type x optional run count x body
 QL_SMC = ["Pr[{B}](<> {0})", "Pr[{B}]([] {0})", "Pr[{B}]({0} U {1})", "E[{B}](max: {0})", "E[{B}](min: {0})", "simulate[{B}]{{{L}}}"]
 QL_BOUNDS = ["<={2}", "#<={2}", "cl<={2}", "<={2}; {R}", "#<={2}; {R}", "cl<={2}; {R}"]
-QL_KINDS = {"AF", "AG", "EF", "EG", "LEADS_TO", "A_UNTIL", "A_WEAK_UNTIL", "CONTROL", "EF_CONTROL", "CONTROL_TOPT", "CONTROL_TOPT_DEF1",
+# hypothesis tests, comparisons of probabilities, filtered simulations (Model/QuerySmc2.lean); `<= p` is outside the model (the builder negates
+# the predicate and computes 1 - p): the library's own round trip is still checked
+QL_SMC2 = ["Pr[{B}](<> {0}) >= {D}", "Pr[{B}]([] {0}) >= {D}", "Pr[{B}](<> {0}) <= {D}", "Pr[{B}]([] {0}) <= {D}",
+           "simulate[{B}]{{{L}}} : {0}", "simulate[{B}]{{{L}}} : {R} : {0}"]
+QL_CMP = ["Pr[{B}](<> {0}) >= Pr[{C}]([] {1})", "Pr[{B}]([] {0}) >= Pr[{C}](<> {1})", "Pr[{B}](<> {0}) >= Pr[{C}](<> {1})"]
+QL_PROBS = ["0.5", "0.25", "0.125", "0.75", "0.1234567", "0.7", "0.3", "1e-05", "0.9999999"]
+QL_KINDS = {"PROBA_MIN_BOX", "PROBA_MIN_DIAMOND", "PROBA_CMP", "SIMULATEREACH", "AF", "AG", "EF", "EG", "LEADS_TO", "A_UNTIL", "A_WEAK_UNTIL", "CONTROL", "EF_CONTROL", "CONTROL_TOPT", "CONTROL_TOPT_DEF1",
             "CONTROL_TOPT_DEF2", "PO_CONTROL", "SUP_VAR", "INF_VAR", "BOUNDS_VAR", "PROBA_BOX", "PROBA_DIAMOND", "PROBA_EXP", "SIMULATE"}
 
 
@@ -519,6 +525,22 @@ def run_query_layer(ctx, b, drv, texts, model_bugs):
                 ops = [r.choice(pool if r.random() < 0.6 else small) for _ in range(3)]
                 lst = ", ".join(r.choice(small) for _ in range(r.randint(1, 4)))
                 queries.append(form.replace("{B}", bnd).replace("{L}", lst).replace("{R}", str(r.choice([0, 1, 2, 7, 50]))).format(*ops))
+    for form in QL_SMC2:
+        for bnd in QL_BOUNDS:
+            for _ in range(n // 4):
+                ops = [r.choice(pool if r.random() < 0.6 else small) for _ in range(3)]
+                lst = ", ".join(r.choice(small) for _ in range(r.randint(1, 4)))
+                queries.append(form.replace("{B}", bnd).replace("{L}", lst).replace("{R}", str(r.choice([0, 1, 2, 7, 50])))
+                               .replace("{D}", r.choice(QL_PROBS)).format(*ops))
+    for form in QL_CMP:
+        for b1 in QL_BOUNDS:
+            for _ in range(n // 4):
+                ops = [r.choice(pool if r.random() < 0.6 else small) for _ in range(3)]
+                ops2 = [ops[0], ops[1], r.choice(small)]
+                q1 = form.replace("{B}", b1).replace("{C}", r.choice(QL_BOUNDS)).replace("{R}", str(r.choice([0, 1, 7])))
+                # the second bound takes another operand: {2} of the second half is drawn separately
+                i = q1.index(">= Pr[")
+                queries.append(q1[:i].format(*ops) + q1[i:].format(*ops2))
     queries = sorted(set(queries), key=lambda qq: (len(qq), qq))
     rc, out, err = c02.run_lines(har, queries)
     st = dict(queries=len(queries), accepted_by_library=0, compared=0, tree_disagreements=0, print_disagreements=0, wf=0, not_wf=0,
@@ -548,6 +570,13 @@ def run_query_layer(ctx, b, drv, texts, model_bugs):
                   "status": status, "second_str": s2, "model": m}
         if kind not in QL_KINDS:
             continue
+        if len(g) != 5 and kind in ("PROBA_MIN_BOX", "PROBA_MIN_DIAMOND") and re.search(r"\)\s*<=\s*[0-9.]", qq):
+            # `Pr[..](..) <= p`: outside the model; the property itself on the library
+            st["outside_model_leq_p"] = st.get("outside_model_leq_p", 0) + 1
+            if not impl_ok:
+                ctx.finding("literal:double-printed-with-6-digits" if status in ("equal", "notequal") else "query:" + kind,
+                            "query %r: str() gives %r; re-parse: %s" % (qq, s1, status), replay)
+            continue
         if len(g) != 5:
             rejected_by_model += 1
             model_bugs.append(("query accepted by the library, rejected by the model's parser", qq, m))
@@ -567,7 +596,8 @@ def run_query_layer(ctx, b, drv, texts, model_bugs):
             known = "binder:quantifier-type-printed-with-type_t::str"
         elif "--2147483648" in s1.replace(" ", ""):
             known = "text:minus-minus-2147483648"
-        if not known and not wf and kind in ("PROBA_BOX", "PROBA_DIAMOND", "PROBA_EXP", "SIMULATE") and re.match(r"(Pr|E|simulate)\[\s*[^<#\s]", qq):
+        if not known and not wf and kind in ("PROBA_BOX", "PROBA_DIAMOND", "PROBA_EXP", "SIMULATE", "PROBA_MIN_BOX", "PROBA_MIN_DIAMOND", "PROBA_CMP", "SIMULATEREACH") \
+                and re.search(r"\b(Pr|E|simulate)\[\s*[^<#\s]", qq):
             # `l<=e` bounds are printed with both sides bare (print_bound_type, get(2).print): an operand that needs parentheses there
             # (`cl <= (a && b)`) comes back as another text -- Bnd.wf of the model excludes exactly these
             known = "query:bound-operand-printed-without-parentheses"
